@@ -18,7 +18,10 @@
 (***************************************************************************)
 EXTENDS Integers, Sequences, FiniteSets, TLC
 
-CONSTANTS Procs, Keys, MaxCalls, Mode
+CONSTANTS Procs, Keys, MaxCalls, Mode,
+          Variant   \* "code" = the mechanism as written; "unregister-early" = a deliberately broken
+                    \* variant (the key is unregistered when fn starts) used as a vacuity guard:
+                    \* TLC must find NoOverlap violated for it
 
 VARIABLES pc,       \* [Procs -> control state]
           key,      \* [Procs -> key of the current call]
@@ -84,7 +87,8 @@ FnBegin(p) ==
   /\ pc[p] = "fnb"
   /\ pc' = [pc EXCEPT ![p] = "fne"]
   /\ ran' = [ran EXCEPT ![p] = @ + 1]
-  /\ UNCHANGED <<key, ncalls, reg, wg, val, mine, nid, got, nextv>>
+  /\ reg' = IF Variant = "unregister-early" THEN [reg EXCEPT ![key[p]] = 0] ELSE reg
+  /\ UNCHANGED <<key, ncalls, wg, val, mine, nid, got, nextv>>
 
 FnEnd(p) ==
   /\ pc[p] = "fne"
